@@ -87,6 +87,22 @@ def oracle(line: str, obs: Obs):
                         fails.append({"what": f"connection awaiting a DWA for {now - last_dwr.get(c, now)} s (timeout {dwa} s): "
                                               f"expected {'closed with the watchdog-timeout reason' if late else 'still open'}",
                                       "event": ev, "real": f"state={state.get(c)} reason={reason}"})
+        if t[0] == "busy":
+            # one call of the I/O loop making k passes `ms` apart (the loop is woken several times a second): the timers are
+            # evaluated all the same -- a silent ready connection gets its one DWR and, unanswered, is closed
+            total = int(t[1]) * int(t[2]) // 1000
+            now += total
+            for c, st in before.items():
+                if st == "READY" and total > (now - total - last_read.get(c, now - total)) + idle + dwa + 2:
+                    n = dwrs.get(c, 0)
+                    owner = next((kv(l).get("name") for l in lines if l.startswith(f"CONN {c} ")), None)
+                    reason = next((kv(l)["reason"] for l in lines if l.startswith("PEER ") and l.split(" ")[1] == owner), "-")
+                    # (the writer thread does not run inside that one call: the DWR itself may not have reached the socket --
+                    # the watchdog-timeout reason shows that it was issued and not answered)
+                    if n > 1 or state.get(c) != "CLOSED" or reason != "DWATO":
+                        fails.append({"what": f"silent ready connection while the I/O loop is woken every {t[2]} ms for {total} s (idle "
+                                              f"{idle} s, DWA timeout {dwa} s): expected one DWR and the close with the watchdog-timeout "
+                                              "reason", "event": ev, "real": f"dwr={n} state={state.get(c)} reason={reason}"})
         if t[0] == "rx" and len(t) == 3:
             c = f"c{t[1]}"
             m = parse_msg(t[2])
@@ -153,6 +169,14 @@ def scenarios(rng: random.Random, tier: str):
             out.append(line + " | " + " | ".join(["start ok", "rx 0 " + nodegen.cea(2001, spell, 2001, 268435464)] + tail))
             line = cfg_line(n_idle, n_dwa, p_idle, p_dwa)
             out.append(line + " | " + " | ".join(["start", "acc", "rx 0 " + nodegen.cer(spell, "4", nxt(), nxt())] + tail))
+    # the I/O loop woken several times a second (one call of the loop function, passes half / a quarter of a second apart) for
+    # longer than idle + DWA timeout: DWR and watchdog close happen all the same (real node only)
+    for idle, dwa, ms in ((3, 2, 500), (2, 1, 250), (5, 3, 500)):
+        total = idle + dwa + 4
+        line = cfg_line(idle, dwa)
+        out.append(line + " | start | acc | rx 0 " + nodegen.cer("peer1.x", "4", nxt(), nxt()) + f" | busy {total * 1000 // ms} {ms} | tick")
+        line = cfg_line(30, 30, idle, dwa, persistent=1)
+        out.append(line + " | start ok | rx 0 " + nodegen.cea(2001, "peer1.x", 2001, 268435464) + f" | busy {total * 1000 // ms} {ms} | tick")
     # a connection that was lost for another reason, re-established, and then times out on the watchdog:
     # the reason recorded must be the watchdog timeout (not the stale earlier one)
     for idle, dwa in ((2, 1), (3, 2)) if tier == "quick" else ((1, 1), (2, 1), (3, 2), (5, 3), (2, 5)):
